@@ -48,7 +48,7 @@ def specs_for(ctx, fam):
     quick = ctx.quick()
     # --split-internal: items are registered twice (namespace packages' metamini.go and package meta); the driver links both
     split = ("cases_split", [TLS / "cases.tl"], ["--tl2WhiteList=*", "--split-internal"], "*", True)
-    return repo_corpus(quick) + [annotation_unit(ctx), split] + rand_specs(ctx, 3 if quick else 9, prefix="rg", verifdump=fam.bins.get("verifdump"))
+    return repo_corpus(quick) + [annotation_unit(ctx), split] + rand_specs(ctx, 3, prefix="rg", verifdump=fam.bins.get("verifdump"))
 
 
 def le32(tag):
